@@ -24,8 +24,9 @@ CHECKS = {
 
 CORE_NOTE = ("Small-scope bounds (slot counts, 2 names, 2 value tokens, depth 5-7; cfg files in spec/core); entity classes are a "
              "refinement parameter rotated over 6 group and 8 object classes; float data; GC schedule driven by the harness; "
-             "trusted: TLC, h5py, harness/core_replay.py + harness/h5snap.py. Quick replays a seeded sample of <=1500 paths of the "
-             "path cover, thorough the whole transition cover of a larger configuration.")
+             "trusted: TLC, h5py, harness/core_replay.py + harness/h5snap.py. Quick replays a feature-prioritised seeded sample of <=1500 paths "
+             "of the transition cover; thorough up to 12000 paths per configuration of larger configurations plus random simulation "
+             "(tlc -simulate) with 3 groups / 2 objects / 4 data / 2 property groups and behaviours of 30 steps.")
 CORE_TECH = ("TLA+ spec Geoh5Core.tla (live tree / weak-ref registries / HDF5 node+link graph / handle mode; GC, purge, close, "
              "re-open as separate actions) model-checked with TLC (Ideal design: all invariants; as-built: named deviation), "
              "state graph exported and a transition cover replayed through the public API with full state comparison "
@@ -185,6 +186,23 @@ CHECKS["C19"] = dict(
     design_ref="DESIGN.md section 6 (C19); notes/C19.md",
     note="Small files (<= 3 groups, 2 objects, 3 data, 1 property group; 5 entity classes, 5 data kinds), single removals only, "
          "mode 'r'; classification optional/mandatory as written in the spec from the format documents; content = public getters.",
+)
+
+CHECKS["C10"] = dict(
+    engine="spec/readonly", category="model_checking",
+    technique="TLA+ spec ReadOnly.tla (handle mode, file version, fetch_active_workspace context; Open/ReOpen/Close/SaveAs, Read/Write/"
+              "Probe over holder kinds x verbs, helpers) with action properties ReadOnlyFrozen, WritesRefused, ReadsWork, "
+              "HelpersPreserveSource, NoSilentUpgrade, WritableOpensAreExplicit; graph walks replayed with the abstract alphabet bound "
+              "to every public entry point discovered reflectively on a fixture file (classified mutating/non-mutating by its effect "
+              "in r+ on a scratch copy); oracle: SHA-256 of the file bytes, handle mode, raise/no-raise, h5py.File opens recorded",
+    text="Every discovered entry point (about 2200 quick / 2800 thorough, about 750 of them mutating) is exercised in mode r at least "
+         "once and in depth-3/4 sequences drawn from the TLC graph; after every step the observed (outcome, handle mode, file "
+         "changed, writable handle opened) must be a transition TLC generated. Helpers (InputFile, path2workspace, "
+         "monitored_directory_copy, fetch_active_workspace) must leave the source bytes and the handle mode unchanged.",
+    design_ref="DESIGN.md section 7 (C10); notes/C10.md",
+    note="h5repack is not installed: the C10 workers put a functional stand-in (h5py copy that logs invocations) on their PATH so that "
+         "the repack branch of close() is observable. Entry points that cannot be called generically are listed in the evidence. "
+         "In-memory state after a refused write is not compared (documented observation).",
 )
 
 NOT_YET = "check not built yet in this round (planned: see DESIGN.md section 7)"
